@@ -102,3 +102,15 @@ def is_contract_refusal(e):
         return False
     msg = str(e)
     return any(s in msg for s in ("only valid for", "wrap in cola.", "Can't trace non square"))
+
+
+import contextlib as _contextlib
+import io as _io
+
+
+@_contextlib.contextmanager
+def quiet():
+    """swallow what progress bars (pbar=True) write to stderr / stdout"""
+    buf = _io.StringIO()
+    with _contextlib.redirect_stderr(buf), _contextlib.redirect_stdout(buf):
+        yield
